@@ -310,6 +310,111 @@ def default_dir_scenario():
             out.append(('TestChain (default directory): value differs from the real chain once the chain object is gone', f'helper {got}, real chain {real}'))
     except Exception as e:  # noqa
         out.append(('TestChain (default directory) fails once the chain object is gone', f'{type(e).__name__}: {str(e)[:200]}'))
+    out += several_helpers_scenario() + callable_mock_scenario()
+    return out
+
+
+def several_helpers_scenario():
+    """several helpers for the same task (different parameters / mock values, default directory) are constructed FIRST and evaluated afterwards,
+    in every order: each yields what the real chain yields for its own parameters and inputs"""
+    import itertools
+    import shutil
+
+    from taskchain import Config, Parameter, Task
+    from taskchain.utils.testing import TestChain, create_test_task
+
+    class Src(Task):
+        class Meta:
+            parameters = [Parameter('seed', default=1)]
+
+        def run(self, seed) -> int:
+            return seed * 7
+
+    class Scaled(Task):
+        class Meta:
+            input_tasks = [Src]
+            parameters = [Parameter('factor', default=1)]
+
+        def run(self, src, factor) -> int:
+            return src * factor + 1
+
+    out = []
+    dirs = []
+    try:
+        for order in itertools.permutations(range(3)):
+            factors = [2, 3, 5]
+            helpers = [create_test_task(Scaled, input_tasks={'src': 10}, parameters={'factor': f}) for f in factors]
+            dirs += [h.get_config().base_dir for h in helpers]
+            got = {}
+            for i in order:
+                got[i] = helpers[i].value
+            exp = {i: 10 * factors[i] + 1 for i in range(3)}
+            if got != exp:
+                out.append(('create_test_task (default directory): helpers constructed together return each other\'s results', f'factors {factors} evaluated in order {order}: {got}, expected {exp}'))
+                break
+        for order in ((0, 1), (1, 0)):
+            chains = [TestChain([Src, Scaled], parameters={'seed': s_, 'factor': 4}) for s_ in (1, 2)]
+            dirs += [c['scaled'].get_config().base_dir for c in chains]
+            got = {}
+            for i in order:
+                got[i] = chains[i]['scaled'].value
+            base = scratch.fresh('c19m')
+            exp = {i: Config(Path(base) / str(i), name='r', data={'tasks': [Src, Scaled], 'seed': s_, 'factor': 4}).chain()['scaled'].value for i, s_ in enumerate((1, 2))}
+            scratch.drop(base)
+            if got != exp:
+                out.append(('TestChain (default directory): chains constructed together return each other\'s results', f'seeds (1, 2) evaluated in order {order}: {got}, real chains {exp}'))
+                break
+    except Exception as e:  # noqa
+        out.append(('helpers constructed together cannot be evaluated', f'{type(e).__name__}: {str(e)[:200]}'))
+    finally:
+        for d_ in dirs:
+            shutil.rmtree(str(d_), ignore_errors=True)
+    return out
+
+
+def callable_mock_scenario():
+    """a mocked upstream value that is itself callable (a function, a class, what a lazily generated upstream task yields): the tested task
+    receives exactly the supplied object, as run argument and through the registry, and nothing calls it"""
+    from typing import Any
+
+    from taskchain import Task
+    from taskchain.utils.testing import TestChain, create_test_task
+
+    called = []
+
+    def fn(*a):
+        called.append(a)
+        return iter([1, 2, 3])
+
+    class Marker:
+        def __init__(self, *a):
+            called.append(('Marker', a))
+
+    from taskchain import InMemoryData
+
+    class Consumer(Task):
+        class Meta:
+            input_tasks = ['up']
+            data_class = InMemoryData
+
+        def run(self, up) -> list:
+            return [up, self.input_tasks['up'].value]
+
+    out = []
+    for label, val in (('function', fn), ('class', Marker), ('builtin class', dict), ('lambda', lambda: 5)):
+        del called[:]
+        try:
+            for how in ('create_test_task', 'TestChain'):
+                if how == 'create_test_task':
+                    t = create_test_task(Consumer, input_tasks={'up': val})
+                else:
+                    t = TestChain([Consumer], mock_tasks={'up': val})['consumer']
+                got = t.value
+                if got[0] is not val or got[1] is not val or called:
+                    out.append(('mock value that is callable is not handed over as supplied', f'{how}, {label}: run received {got[0]!r}, registry gives {got[1]!r}, calls of the supplied object: {called}'))
+                    break
+        except Exception as e:  # noqa
+            out.append(('mock value that is callable is not handed over as supplied', f'{label}: {type(e).__name__}: {str(e)[:200]}'))
     return out
 
 
